@@ -204,9 +204,12 @@ class IndexedData(BaseCartesianData, HubListener):
         kwargs['view'] = self._to_original_view(kwargs.get('view'))
         return self._original_data.compute_statistic(statistic, cid, **kwargs)
 
-    def compute_histogram(self, *args, **kwargs):
+    def compute_histogram(self, cids, *args, **kwargs):
+        cids = [self._translate_cid(cid) for cid in cids]
+        if kwargs.get('weights') is not None:
+            kwargs['weights'] = self._translate_cid(kwargs['weights'])
         if kwargs.get('subset_state') is None:
             kwargs['subset_state'] = self._indices_subset_state
         else:
             kwargs['subset_state'] &= self._indices_subset_state
-        return self._original_data.compute_histogram(*args, **kwargs)
+        return self._original_data.compute_histogram(cids, *args, **kwargs)
